@@ -1,6 +1,7 @@
 pub mod common;
 pub mod conformance;
 pub mod c01;
+pub mod c03;
 pub mod c06;
 pub mod c08;
 pub mod c10;
@@ -17,6 +18,7 @@ use crate::pred::*;
 pub fn dispatch(ctx: &Ctx) -> bool {
     match ctx.property.as_str() {
         "C01" => c01::run(ctx),
+        "C03" => c03::run(ctx),
         "C06" => c06::run(ctx),
         "C08" => c08::run(ctx),
         "C10" => c10::run(ctx),
@@ -29,6 +31,7 @@ pub fn dispatch(ctx: &Ctx) -> bool {
 
 pub fn custom_for(property: &str) -> Option<CustomFn<'static>> {
     match property {
+        "C03" => Some(&c03::custom),
         "C10" => Some(&c10::custom),
         _ => None,
     }
